@@ -187,3 +187,45 @@ def random_options(rng, rule, density=1.0):
         if o in dom and rng.random() < density:
             out[o] = rng.choice(dom[o])
     return out
+
+
+_INDENT = None
+
+
+def indent_entries():
+    """(group, token, key, default) of the tree's indent map (vsg/vhdlFile/indent/indent_config.yaml)."""
+    global _INDENT
+    if _INDENT is None:
+        out = []
+        try:
+            import yaml
+
+            with open(os.path.join(REPO, "vsg", "vhdlFile", "indent", "indent_config.yaml")) as fh:
+                d = yaml.safe_load(fh)
+            for g, toks in sorted(d["indent"]["tokens"].items()):
+                for t, kv in sorted(toks.items()):
+                    for k, v in sorted(kv.items()):
+                        out.append((g, t, k, v))
+        except Exception:
+            out = []
+        _INDENT = out
+    return _INDENT
+
+
+INDENT_VALUES = ["current", "+1", "-1", 0, 1]
+
+
+def random_indent_config(rng):
+    """A few entries of the indent map set to other documented values; the rarely used keys (those
+    that are not token/after, e.g. use_clause.keyword.token_if_no_matching_library_clause) are
+    preferred half of the time."""
+    ents = indent_entries()
+    if not ents:
+        return None
+    special = [e for e in ents if e[2] not in ("token", "after")]
+    cfg = {}
+    for _ in range(rng.choice([1, 1, 2, 3])):
+        g, t, k, v = rng.choice(special) if special and rng.random() < 0.5 else rng.choice(ents)
+        nv = rng.choice([x for x in INDENT_VALUES if str(x) != str(v)])
+        cfg.setdefault(g, {}).setdefault(t, {})[k] = nv
+    return {"tokens": cfg}
